@@ -23,7 +23,9 @@ OBL = {
     "C03": [("Qsx.Props.C03", t) for t in ["Qsx.Props.C03.optimal_cert_sound", "Qsx.Props.C03.farkas_cert_sound", "Qsx.Props.C03.ray_cert_sound",
                                            "Qsx.Props.C03.classes_exclusive", "Qsx.Props.C03.value_unique", "Qsx.Props.C03.ladder_bound",
                                            "Qsx.Props.C03.ratio_pII_never_failed", "Qsx.Props.C03.ratio_pII_unbounded_ray",
-                                           "Qsx.Props.C03.ratio_pII_flip_feasible", "Qsx.Props.C03.ratio_pII_step_feasible"]],
+                                           "Qsx.Props.C03.ratio_pII_flip_feasible", "Qsx.Props.C03.ratio_pII_step_feasible",
+                                           "Qsx.Props.C03.ratio_dII_never_failed", "Qsx.Props.C03.ratio_dII_unbounded_ray",
+                                           "Qsx.Props.C03.ratio_dII_step_feasible"]],
     "C04": [("Qsx.Props.C04", t) for t in ["Qsx.Props.C04.certified_answers_agree", "Qsx.Props.C04.certified_status_agree",
                                            "Qsx.Props.C04.repeated_solve_cached"]],
 }
@@ -237,7 +239,8 @@ def run(pid, tier, seed):
                 if pid == "C03" or entry.startswith("exact"):
                     rep.violation("no definitive answer (%s) on an LP whose true class is %s (%s)" %
                                   ("error return" if rv != "0" else solvelib.ST.get(st, st), r["status"], tag), ctx,
-                                  signature={"symptom": "non-definitive", "entry": entry, "got": "error" if rv != "0" else solvelib.ST.get(st, st)})
+                                  signature={"symptom": "non-definitive", "entry": entry, "got": "error" if rv != "0" else solvelib.ST.get(st, st),
+                                             "data": "wide-range" if lpfam.wide_range(LP.parse(key.split())) else "ordinary"})
                 continue
             if st != want:
                 rep.violation("status %s reported (%s) but the LP is %s (certified reference)" % (solvelib.ST.get(st, st), tag, r["status"]), ctx,
